@@ -24,7 +24,7 @@ for f in K:
         o += "| %s | %s | %s | dependency code (noodles-bcf 0.32, pinned by Cargo.lock; no other version in the offline registry) |\n" % (f['id'], f['property'], f['what'].replace('|', '\\|'))
 R = json.load(open(os.path.join(V, 'seeded', 'RESULTS.json')))
 BEFORE = {}
-for fn in ('RESULTS_round2_before_strengthening.json', 'RESULTS_round3_before_strengthening.json', 'RESULTS_round4_before_strengthening.json', 'RESULTS_round5_before_strengthening.json', 'RESULTS_round6_before_strengthening.json', 'RESULTS_round7_before_strengthening.json', 'RESULTS_round8_before_strengthening.json', 'RESULTS_round9_before_strengthening.json'):
+for fn in ('RESULTS_round2_before_strengthening.json', 'RESULTS_round3_before_strengthening.json', 'RESULTS_round4_before_strengthening.json', 'RESULTS_round5_before_strengthening.json', 'RESULTS_round6_before_strengthening.json', 'RESULTS_round7_before_strengthening.json', 'RESULTS_round8_before_strengthening.json', 'RESULTS_round9_before_strengthening.json', 'RESULTS_round10_before_strengthening.json'):
     try:
         BEFORE.update(json.load(open(os.path.join(V, 'seeded', fn)))['results'])
     except OSError:
@@ -41,7 +41,7 @@ for mid in sorted(R):
 n_total = len(R)
 n_det = sum(1 for r in R.values() if any(isinstance(v, dict) and v.get('detected') for v in r.values()))
 nb = sum(1 for b in BEFORE.values() if any(isinstance(v, dict) and v.get('detected') for v in b.values()))
-c += "\n%d of %d seeded changes are caught by the check of the property they were written against (quick tier, seed 1). Rounds two to nine (ids -c/-d ... -o/-p, -q): %d of %d were caught by the machinery as it stood before the respective round was known; the rest were caught after the strengthening described below.\n" % (n_det, n_total, nb, len(BEFORE))
+c += "\n%d of %d seeded changes are caught by the check of the property they were written against (quick tier, seed 1). Rounds two to ten (ids -c/-d ... -o/-p, -q, -r): %d of %d were caught by the machinery as it stood before the respective round was known; the rest were caught after the strengthening described below.\n" % (n_det, n_total, nb, len(BEFORE))
 for name, body in (("fix-table", t), ("open-table", o), ("seeded-table", c)):
     pat = re.compile(r"<!-- BEGIN:%s -->.*?<!-- END:%s -->" % (name, name), re.S)
     assert pat.search(s), name
